@@ -539,6 +539,18 @@ func (in *instr) stmt(s ast.Stmt, withY bool) []ast.Stmt {
 		in.block(st)
 
 	case *ast.IfStmt:
+		if st.Init != nil && containsRecv(st.Init) && !containsRecv(st.Cond) && isSimple(st.Init) {
+			// if v, ok := <-ch; ok { ... }  =>  { <init with gates>; if ok { ... } }
+			init := st.Init
+			st.Init = nil
+			inner := in.stmt(init, false)
+			inner = append(inner, in.stmt(st, false)...)
+			blk := &ast.BlockStmt{List: inner}
+			if withY {
+				return []ast.Stmt{in.yStmt(pos, "if"), blk}
+			}
+			return []ast.Stmt{blk}
+		}
 		if st.Init != nil && containsRecv(st.Init) || containsRecv(st.Cond) {
 			in.errorf(pos, "channel receive in if header")
 		}
@@ -587,6 +599,30 @@ func (in *instr) stmt(s ast.Stmt, withY bool) []ast.Stmt {
 		in.block(st.Body)
 
 	case *ast.SwitchStmt:
+		if st.Init != nil && containsRecv(st.Init) && (st.Tag == nil || !containsRecv(st.Tag)) && isSimple(st.Init) {
+			init := st.Init
+			st.Init = nil
+			inner := in.stmt(init, false)
+			inner = append(inner, in.stmt(st, false)...)
+			blk := &ast.BlockStmt{List: inner}
+			if withY {
+				return []ast.Stmt{in.yStmt(pos, "switch"), blk}
+			}
+			return []ast.Stmt{blk}
+		}
+		if st.Init == nil && st.Tag != nil && containsRecv(st.Tag) {
+			// switch <-ch { ... }  =>  { tmp := <-ch (gated); switch tmp { ... } }
+			t := in.tmp("sw")
+			as := &ast.AssignStmt{Lhs: []ast.Expr{t}, Tok: token.DEFINE, Rhs: []ast.Expr{st.Tag}}
+			st.Tag = t
+			inner := in.stmt(as, false)
+			inner = append(inner, in.stmt(st, false)...)
+			blk := &ast.BlockStmt{List: inner}
+			if withY {
+				return []ast.Stmt{in.yStmt(pos, "switch"), blk}
+			}
+			return []ast.Stmt{blk}
+		}
 		if (st.Init != nil && containsRecv(st.Init)) || (st.Tag != nil && containsRecv(st.Tag)) {
 			in.errorf(pos, "channel receive in switch header")
 		}
